@@ -186,6 +186,47 @@ func mapRangeVerdict(info *types.Info, rs *ast.RangeStmt) string {
 }
 
 // hasImpureCall: the expression contains a call other than value-only helpers.
+// collectThenSort: `for k := range m { s = append(s, k) }` immediately followed by sort.Strings(s) / sort.Slice(s, ..) /
+// slices.Sort(s): the only thing the range does is collect, and the collection is put in a canonical order before any use.
+func collectThenSort(rs *ast.RangeStmt, following ast.Stmt) bool {
+	if rs.Body == nil || len(rs.Body.List) != 1 || following == nil {
+		return false
+	}
+	as, ok := rs.Body.List[0].(*ast.AssignStmt)
+	if !ok || len(as.Lhs) != 1 || len(as.Rhs) != 1 || (as.Tok != token.ASSIGN) {
+		return false
+	}
+	call, ok := as.Rhs[0].(*ast.CallExpr)
+	if !ok || len(call.Args) != 2 {
+		return false
+	}
+	if id, ok := call.Fun.(*ast.Ident); !ok || id.Name != "append" {
+		return false
+	}
+	slice := types.ExprString(as.Lhs[0])
+	if types.ExprString(call.Args[0]) != slice {
+		return false
+	}
+	// the appended value is the range key or value itself
+	arg := types.ExprString(call.Args[1])
+	if !(rs.Key != nil && types.ExprString(rs.Key) == arg) && !(rs.Value != nil && types.ExprString(rs.Value) == arg) {
+		return false
+	}
+	es, ok := following.(*ast.ExprStmt)
+	if !ok {
+		return false
+	}
+	sc, ok := es.X.(*ast.CallExpr)
+	if !ok || len(sc.Args) == 0 || types.ExprString(sc.Args[0]) != slice {
+		return false
+	}
+	switch types.ExprString(sc.Fun) {
+	case "sort.Strings", "sort.Ints", "sort.Slice", "sort.SliceStable", "slices.Sort", "sort.Sort":
+		return true
+	}
+	return false
+}
+
 func hasImpureCall(info *types.Info, x ast.Expr) bool {
 	impure := false
 	ast.Inspect(x, func(n ast.Node) bool {
@@ -349,6 +390,18 @@ func init() {
 		Run: func(e *Engine, r *RuleRun) {
 			for _, u := range e.astUnits(true) {
 				for _, f := range u.files {
+					// statement following each range statement in its block (for the collect-then-sort idiom)
+					next := map[*ast.RangeStmt]ast.Stmt{}
+					ast.Inspect(f, func(n ast.Node) bool {
+						if b, ok := n.(*ast.BlockStmt); ok {
+							for i, st := range b.List {
+								if rs, ok := st.(*ast.RangeStmt); ok && i+1 < len(b.List) {
+									next[rs] = b.List[i+1]
+								}
+							}
+						}
+						return true
+					})
 					ast.Inspect(f, func(n ast.Node) bool {
 						rs, ok := n.(*ast.RangeStmt)
 						if !ok {
@@ -366,6 +419,8 @@ func init() {
 						reason := mapRangeVerdict(u.info, rs)
 						if reason == "" {
 							r.OK(fn, construct, "body only writes maps / accumulates commutatively", e.Pos(rs.Pos()))
+						} else if collectThenSort(rs, next[rs]) {
+							r.OK(fn, construct, "keys are collected into a slice that is sorted by the very next statement", e.Pos(rs.Pos()))
 						} else if why, ok := mapRangeExceptions[fn+" | "+types.ExprString(rs.X)]; ok {
 							r.OK(fn, construct, "reviewed exception: "+why, e.Pos(rs.Pos()))
 						} else {
